@@ -29,6 +29,8 @@ use serde::Deserialize;
 use serde_json::{json, Value};
 use std::collections::{HashMap, HashSet};
 use std::sync::Arc;
+use ckb_network::{CKBProtocolHandler, PeerIndex, SupportProtocols};
+use ckbv::netctx::RecCtx;
 
 #[derive(Deserialize, Clone, Debug)]
 struct Out {
@@ -384,6 +386,9 @@ struct Stats {
     renotified: u64,
     digests_across_adjustment: u64,
     typed_input_under_repeated_lock: u64,
+    serve_cases: u64,
+    serve_requests: u64,
+    serve_nonempty_above0: u64,
 }
 
 fn chain_cmd(inp: &Input) {
@@ -400,8 +405,11 @@ fn chain_cmd(inp: &Input) {
         td.insert(0, c.genesis_block().difficulty());
         let mut exp_main: Vec<usize> = vec![0];
         sweep(&base);
-        let n = Node::start(&NodeCfg { assembler: false, ..NodeCfg::temp(c) });
+        let (n, relay_rx) = start_with_relay(&NodeCfg { assembler: false, ..NodeCfg::temp(c) });
         ckb_block_filter::filter::BlockFilter::new(n.shared.clone()).start();
+        // the block-filter protocol server (sync/src/filter), driven without a network (FilterServe.tla)
+        let sync_shared = Arc::new(ckb_sync::SyncShared::new(n.shared.clone(), Default::default(), relay_rx));
+        let mut fproto = ckb_sync::BlockFilter::new(sync_shared);
         let mut blocks: HashMap<usize, Blk> = HashMap::new();
         blocks.insert(0, Blk { parent: 0, view: c.genesis_block().clone(), honest: true });
         let mut ids: HashMap<Byte32, usize> = HashMap::new();
@@ -617,6 +625,14 @@ fn chain_cmd(inp: &Input) {
                     }
                 }
             }
+            // ---- the protocol server: every start number, first from the snapshot as published (it lags the builder), then
+            //      after a refresh (the snapshot a next block would publish)
+            for phase in ["published", "refreshed"] {
+                if phase == "refreshed" {
+                    n.shared.refresh_snapshot();
+                }
+                serve_round(&n, &mut fproto, &blocks, &ids, main, phase, hist.id, si, &mut st);
+            }
         }
         drop(builders);
         drop(n);
@@ -628,7 +644,115 @@ fn chain_cmd(inp: &Input) {
     println!("{}", json!({"summary": {"histories": inp.hists.len(), "steps": st.steps, "reorgs": st.reorgs, "reorgs_deeper_than_1": st.deep, "reorgs_to_shorter_heavier": st.shorter_heavier,
         "flawed_refused": st.refused, "roots": st.roots, "positions": st.positions, "extensions": st.extensions, "proofs": st.proofs,
         "proofs_rejected_on_sibling": st.proofs_rejected_on_sibling, "filters": st.filters, "script_hashes": st.script_hashes,
-        "input_script_hashes": st.input_script_hashes, "renotified": st.renotified, "digests_across_adjustment": st.digests_across_adjustment, "typed_input_under_repeated_lock": st.typed_input_under_repeated_lock, "mismatches": st.mismatches, "tool_errors": tool_errors.len()}}));
+        "input_script_hashes": st.input_script_hashes, "renotified": st.renotified, "digests_across_adjustment": st.digests_across_adjustment, "typed_input_under_repeated_lock": st.typed_input_under_repeated_lock, "serve_cases": st.serve_cases, "serve_requests": st.serve_requests, "serve_nonempty_above0": st.serve_nonempty_above0, "mismatches": st.mismatches, "tool_errors": tool_errors.len()}}));
+}
+
+/// One round of requests to the real block-filter protocol handler: the published snapshot is recorded (main chain and
+/// latest-built marker; which blocks have filter / filter-hash rows in the LIVE store) together with the normalised answers;
+/// Judge_FilterServe.tla computes what FilterServe.tla demands for that snapshot and the check compares.
+#[allow(clippy::too_many_arguments)]
+fn serve_round(n: &Node, proto: &mut ckb_sync::BlockFilter, blocks: &HashMap<usize, Blk>, ids: &HashMap<Byte32, usize>, main: &[usize], phase: &str, hist: u64, step: usize, st: &mut Stats) {
+    let snap = n.shared.snapshot();
+    let nmax = *blocks.keys().max().unwrap();
+    let mut parent = vec![];
+    let mut number = vec![];
+    for b in 1..=nmax {
+        match blocks.get(&b) {
+            Some(x) => { parent.push(x.parent as i64); number.push(x.view.number()); }
+            None => { parent.push(0); number.push(1); }
+        }
+    }
+    let mut pfilters = vec![];
+    let mut pfhash = vec![];
+    let mut fh = serde_json::Map::new();
+    for (b, x) in blocks.iter() {
+        let h = x.view.hash();
+        // the rows themselves are read from the LIVE store by the server (ActiveChain::get_block_filter / _hash)
+        if n.shared.store().get_block_filter(&h).is_some() { pfilters.push(*b); }
+        if let Some(v) = n.shared.store().get_block_filter_hash(&h) { pfhash.push(*b); fh.insert(b.to_string(), json!(format!("{:x}", v))); }
+    }
+    pfilters.sort();
+    pfhash.sort();
+    let platest: i64 = snap.get_latest_built_filter_data_block_hash().map(|h| ids.get(&h).map(|&i| i as i64).unwrap_or(-2)).unwrap_or(-1);
+    let handle = n.shared.async_handle().clone();
+    let mut bad: Vec<String> = vec![];
+    let mut ask = |msg: packed::BlockFilterMessage, bad: &mut Vec<String>| -> Option<packed::BlockFilterMessage> {
+        let (nc, rec) = RecCtx::new(SupportProtocols::Filter);
+        let data = msg.as_bytes();
+        let r = std::panic::catch_unwind(std::panic::AssertUnwindSafe(|| {
+            handle.block_on(proto.received(nc, PeerIndex::new(1), data));
+        }));
+        if r.is_err() {
+            bad.push("panic".into());
+            return None;
+        }
+        if !rec.banned.lock().unwrap().is_empty() {
+            bad.push("ban".into());
+        }
+        let sent = rec.sent.lock().unwrap();
+        if sent.len() > 1 {
+            bad.push("several-answers".into());
+        }
+        sent.first().and_then(|d| packed::BlockFilterMessage::from_slice(d).map_err(|_| bad.push("answer-malformed".into())).ok())
+    };
+    let ignored = json!({"k": "ignored"});
+    let (mut af, mut ah, mut ac) = (vec![], vec![], vec![]);
+    let starts: Vec<u64> = (0..=main.len() as u64 + 1).chain([1u64 << 32, u64::MAX - 1999, u64::MAX - 1, u64::MAX]).collect();
+    for &start in &starts {
+        let modelled = start <= main.len() as u64 + 1;
+        st.serve_requests += 3;
+        // GetBlockFilters
+        let q = packed::BlockFilterMessage::new_builder().set(packed::GetBlockFilters::new_builder().start_number(start).build()).build();
+        let a = match ask(q, &mut bad).map(|m| m.to_enum()) {
+            None => ignored.clone(),
+            Some(packed::BlockFilterMessageUnion::BlockFilters(x)) => {
+                let sn: u64 = x.start_number().into();
+                if sn != start { bad.push(format!("filters:start-number:{start}")); }
+                let hs: Vec<Byte32> = x.block_hashes().into_iter().collect();
+                let fs: Vec<packed::Bytes> = x.filters().into_iter().collect();
+                if hs.len() != fs.len() { bad.push(format!("filters:lengths-differ:{start}")); }
+                for (h, f) in hs.iter().zip(fs.iter()) {
+                    // the served filter is the stored filter of that block (its completeness is judged by the chain check above)
+                    if n.shared.store().get_block_filter(h).map(|s| s.as_slice() == f.as_slice()) != Some(true) { bad.push(format!("filters:content:{start}")); }
+                }
+                if start > 0 && !hs.is_empty() { st.serve_nonempty_above0 += 1; }
+                json!({"k": "filters", "b": hs.iter().map(|h| ids.get(h).map(|&i| i as i64).unwrap_or(-2)).collect::<Vec<_>>()})
+            }
+            Some(_) => { bad.push(format!("filters:wrong-answer-type:{start}")); ignored.clone() }
+        };
+        if modelled { af.push(a) } else if a != ignored { bad.push(format!("filters:answered-beyond-chain:{start}")); }
+        // GetBlockFilterHashes
+        let q = packed::BlockFilterMessage::new_builder().set(packed::GetBlockFilterHashes::new_builder().start_number(start).build()).build();
+        let a = match ask(q, &mut bad).map(|m| m.to_enum()) {
+            None => ignored.clone(),
+            Some(packed::BlockFilterMessageUnion::BlockFilterHashes(x)) => {
+                let sn: u64 = x.start_number().into();
+                if sn != start { bad.push(format!("hashes:start-number:{start}")); }
+                json!({"k": "hashes", "parent": format!("{:x}", x.parent_block_filter_hash()), "h": x.block_filter_hashes().into_iter().map(|h| format!("{:x}", h)).collect::<Vec<_>>()})
+            }
+            Some(_) => { bad.push(format!("hashes:wrong-answer-type:{start}")); ignored.clone() }
+        };
+        if modelled { ah.push(a) } else if a != ignored { bad.push(format!("hashes:answered-beyond-chain:{start}")); }
+        // GetBlockFilterCheckPoints
+        let q = packed::BlockFilterMessage::new_builder().set(packed::GetBlockFilterCheckPoints::new_builder().start_number(start).build()).build();
+        let a = match ask(q, &mut bad).map(|m| m.to_enum()) {
+            None => ignored.clone(),
+            Some(packed::BlockFilterMessageUnion::BlockFilterCheckPoints(x)) => {
+                let sn: u64 = x.start_number().into();
+                if sn != start { bad.push(format!("checkpoints:start-number:{start}")); }
+                json!({"k": "checkpoints", "h": x.block_filter_hashes().into_iter().map(|h| format!("{:x}", h)).collect::<Vec<_>>()})
+            }
+            Some(_) => { bad.push(format!("checkpoints:wrong-answer-type:{start}")); ignored.clone() }
+        };
+        if modelled { ac.push(a) } else if a != ignored { bad.push(format!("checkpoints:answered-beyond-chain:{start}")); }
+    }
+    // unsolicited answers from a peer are ignored without a reply
+    let q = packed::BlockFilterMessage::new_builder().set(packed::BlockFilterHashes::new_builder().start_number(1u64).build()).build();
+    if ask(q, &mut bad).is_some() { bad.push("reply-to-unsolicited-answer".into()); }
+    st.serve_cases += 1;
+    println!("{}", json!({"serve": {"idx": st.serve_cases, "hist": hist, "step": step, "phase": phase, "n": nmax, "parent": parent, "number": number,
+        "main": main, "pfilters": pfilters, "pfhash": pfhash, "platest": platest, "fh": fh, "zero": format!("{:x}", Byte32::zero()),
+        "filters": af, "hashes": ah, "checkpoints": ac, "bad": bad}}));
 }
 
 /// The snapshot / live-store interleaving, placed with the H8 yield point:
